@@ -56,6 +56,9 @@ OkTwinDerived(o) == o.twin.ok => /\ SeqBag(o.twin.legals) = SeqBag(o.legals)
 OkPins(p, o)     == SeqToSet(o.pins) = Blockers(p)
 
 Fail(id, name, ok) == IF ok THEN {} ELSE {<<id, name>>}
+\* C05 quantifies over clock values 0..9999 (the text form has four digits); beyond that the
+\* text-based comparisons say nothing
+InTextRange(p) == p.hm <= 9999 /\ p.fm <= 9999
 
 Checks(p, L, o) ==
     LET k == o.kings IN
@@ -66,10 +69,10 @@ Checks(p, L, o) ==
     Fail("C03", "status", k /\ OkStatus(p, L, o)) \cup
     Fail("C04", "hash", OkHash(p, o)) \cup
     Fail("C05", "fen", OkFen(p, o)) \cup
-    Fail("C05", "twin-parse", OkTwinParse(o)) \cup
-    Fail("C05", "twin-equal", OkTwinEqual(o)) \cup
-    Fail("C04", "twin-hash", OkTwinHash(o)) \cup
-    Fail("C03", "twin-derived", OkTwinDerived(o)) \cup
+    Fail("C05", "twin-parse", InTextRange(p) => OkTwinParse(o)) \cup
+    Fail("C05", "twin-equal", InTextRange(p) => OkTwinEqual(o)) \cup
+    Fail("C04", "twin-hash", InTextRange(p) => OkTwinHash(o)) \cup
+    Fail("C03", "twin-derived", InTextRange(p) => OkTwinDerived(o)) \cup
     Fail("DRIFT", "pins", k => OkPins(p, o))
 
 \* the legality probe over all 20480 triples, when the event carries one
